@@ -9,6 +9,9 @@ pub fn adjacency_matrix<F: Float, DT: Data<Elem = F>, N: NearestNeighbour>(
     k: usize,
     nn_algo: &N,
 ) -> CsMat<F> {
+    // the k-d tree index needs every record contiguous in memory (it panics otherwise): column-major,
+    // column-reversed or column-strided records are copied into standard layout first (no copy otherwise)
+    let dataset = dataset.as_standard_layout();
     let n_points = dataset.len_of(Axis(0));
 
     // ensure that the number of neighbours is at least one and less than the total number of
@@ -17,7 +20,7 @@ pub fn adjacency_matrix<F: Float, DT: Data<Elem = F>, N: NearestNeighbour>(
     assert!(k > 0);
 
     let nn = nn_algo
-        .from_batch(dataset, L2Dist)
+        .from_batch(&dataset, L2Dist)
         .expect("Unexpected nearest neighbour error");
 
     // allocate buffer to initialize the sparse matrix later on
